@@ -445,7 +445,7 @@ class FsSeam:
             created = not os.path.lexists(file)
         fo = real_open(file, mode, *a, **kw)
         self.count("open_w" if wr else "open_r")
-        if self.watch_open is not None and rel.endswith(self.watch_open):
+        if self.watch_open is not None and self.watch_open in rel:
             try:
                 self.open_sizes.append((rel, "w" if wr else "r", os.fstat(fo.fileno()).st_size))
             except OSError:
